@@ -47,10 +47,23 @@ def section_findings():
 def section_seeds():
     return subprocess.check_output([sys.executable, os.path.join(V, "harness", "seedtable.py")]).decode()
 
+def section_benign():
+    rows = []
+    bd = os.path.join(V, "seeded", "benign")
+    for d in sorted(os.listdir(bd)) if os.path.isdir(bd) else []:
+        mp = os.path.join(bd, d, "meta.json")
+        if not os.path.exists(mp):
+            continue
+        m = json.load(open(mp))
+        cr = m.get("check_result", {})
+        rows.append("| %s | %s | %s | %s | %s |" % (d, m.get("property"), (m.get("summary") or "").replace("|", "/").replace("\n", " ")[:200],
+                                                  " ".join(cr.get("checks_run", [])), "silent" if not cr.get("alarms") else "ALARM: " + " ".join(cr["alarms"])))
+    return "| change | written for | what it changes | checks run (anchored files touched) | result |\n|---|---|---|---|---|\n" + "\n".join(rows)
+
 def main():
     p = os.path.join(V, "DESIGN.md")
     s = open(p).read()
-    for name, fn in (("status", section_status), ("findings", section_findings), ("seeds", section_seeds)):
+    for name, fn in (("status", section_status), ("findings", section_findings), ("seeds", section_seeds), ("benign", section_benign)):
         a = "<!-- BEGIN GENERATED: %s -->" % name
         b = "<!-- END GENERATED: %s -->" % name
         if a in s:
